@@ -412,9 +412,9 @@ impl StringDecoder for Utf8LengthPrefixedDecoder {
             // Convert the resulting &str into a String
             .to_owned();
 
-        // Update the cursor position
-        // The +1 is to skip t length
-        *cursor += position + 1;
+        // Update the cursor position: the length byte and the whole declared string (or what there is
+        // of it), wherever the delimiter was found inside it
+        *cursor += 1 + (length as usize).min(data.len() - 1);
 
         Ok(result)
     }
